@@ -235,3 +235,105 @@ def gen_message(r, max_body_types=4):
     r.shuffle(fields)
     m.fields = fields
     return m
+
+# ---------------------------------------------------------------- unmarshalling (for what the bus sends us)
+
+def parse_sig(s, i=0):
+    """one complete type from signature string s at i -> (type, next_i)"""
+    c = s[i]
+    if c in BASIC: return ('b', c), i + 1
+    if c == 'v': return ('v',), i + 1
+    if c == '(':
+        fs = []; i += 1
+        while s[i] != ')':
+            t, i = parse_sig(s, i); fs.append(t)
+        return ('r', fs), i + 1
+    if c == 'a':
+        if s[i + 1] == '{':
+            k = s[i + 2]
+            vt, j = parse_sig(s, i + 3)
+            assert s[j] == '}'
+            return ('e', k, vt), j + 1
+        t, j = parse_sig(s, i + 1)
+        return ('a', t), j
+    raise ValueError("bad signature %r at %d" % (s, i))
+
+def parse_sig_all(s):
+    out = []; i = 0
+    while i < len(s):
+        t, i = parse_sig(s, i); out.append(t)
+    return out
+
+def _align(pos, a):
+    return (pos + a - 1) // a * a
+
+def unmarshal(buf, pos, t, le):
+    """-> (value, new_pos); positions are absolute within buf (alignment from 0)"""
+    k = t[0]
+    bo = 'little' if le else 'big'
+    if k == 'b':
+        c = t[1]
+        if c in FIXED:
+            pos = _align(pos, FIXED[c])
+            return int.from_bytes(buf[pos:pos + FIXED[c]], bo), pos + FIXED[c]
+        if c == 'g':
+            n = buf[pos]; return bytes(buf[pos + 1:pos + 1 + n]), pos + 2 + n
+        pos = _align(pos, 4)
+        n = int.from_bytes(buf[pos:pos + 4], bo)
+        return bytes(buf[pos + 4:pos + 4 + n]), pos + 5 + n
+    if k == 'v':
+        n = buf[pos]; sg = bytes(buf[pos + 1:pos + 1 + n]).decode(); pos += 2 + n
+        ty = parse_sig(sg)[0]
+        pos = _align(pos, align_of(ty))
+        v, pos = unmarshal(buf, pos, ty, le)
+        return (ty, v), pos
+    if k == 'a':
+        pos = _align(pos, 4)
+        n = int.from_bytes(buf[pos:pos + 4], bo); pos += 4
+        pos = _align(pos, align_of(t[1]))
+        end = pos + n; out = []
+        while pos < end:
+            v, pos = unmarshal(buf, pos, t[1], le); out.append(v)
+        return out, pos
+    if k == 'r':
+        pos = _align(pos, 8); out = []
+        for f in t[1]:
+            v, pos = unmarshal(buf, pos, f, le); out.append(v)
+        return out, pos
+    if k == 'e':
+        pos = _align(pos, 4)
+        n = int.from_bytes(buf[pos:pos + 4], bo); pos += 4
+        pos = _align(pos, 8)
+        end = pos + n; out = []
+        while pos < end:
+            pos = _align(pos, 8)
+            kk, pos = unmarshal(buf, pos, ('b', t[1]), le)
+            vv, pos = unmarshal(buf, pos, t[2], le)
+            out.append((kk, vv))
+        return out, pos
+
+def message_length(buf):
+    """total length of the message at the front of buf, or None if fewer than 16 bytes"""
+    if len(buf) < 16: return None
+    bo = 'little' if buf[0] == ord('l') else 'big'
+    blen = int.from_bytes(buf[4:8], bo); falen = int.from_bytes(buf[12:16], bo)
+    return _align(16 + falen, 8) + blen
+
+def parse_message(buf):
+    """bytes of exactly one message -> Message"""
+    m = Message()
+    m.le = buf[0] == ord('l')
+    bo = 'little' if m.le else 'big'
+    m.mtype, m.flags, m.version = buf[1], buf[2], buf[3]
+    m.serial = int.from_bytes(buf[8:12], bo)
+    falen = int.from_bytes(buf[12:16], bo)
+    fvals, pos = unmarshal(buf, 12, ('a', ('r', [('b', 'y'), ('v',)])), m.le)
+    m.fields = [(c, ty, v) for c, (ty, v) in fvals]
+    hlen = _align(16 + falen, 8)
+    sg = m.get(8)
+    m.body_types = parse_sig_all(sg.decode()) if sg else []
+    body = buf[hlen:]
+    pos = 0; m.body = []
+    for t in m.body_types:
+        v, pos = unmarshal(body, pos, t, m.le); m.body.append(v)
+    return m
